@@ -153,8 +153,9 @@ def run(mod, pid, a, seed, workdir, t0):
         elif v in ("POST_FAIL", "EXEC_ERR"):
             rep = rec.get("reproduces")
             if rep is True:
-                key = mod.finding_key(ob, rec) if hasattr(mod, "finding_key") else "%s %s" % (
-                    ob.sample if ob else rec.get("sample"), json.dumps(rec.get("cex"), default=str, sort_keys=True))
+                key = mod.finding_key(ob, rec) if hasattr(mod, "finding_key") else "%s :: %s :: %s" % (
+                    ob.sample if ob else rec.get("sample"), json.dumps(rec.get("cex"), default=str, sort_keys=True),
+                    rec.get("replay_detail"))
                 rec["key"] = key
                 f = match_finding(findings, pid, key)
                 if f:
@@ -188,9 +189,11 @@ def run(mod, pid, a, seed, workdir, t0):
 
     # ---- report
     rc = 0
-    for rec, f in known:
-        print("KNOWN-FINDING: property=%s %s" % (pid, f["what"]))
     seen_kf = set()
+    for rec, f in known:
+        if f["what"] not in seen_kf:
+            seen_kf.add(f["what"])
+            print("KNOWN-FINDING: property=%s %s" % (pid, f["what"]))
     os.makedirs(os.path.join(HERE, "replays"), exist_ok=True)
     if len(violations) > 25:
         print('(%d violations; writing replay files for the first 25)' % len(violations))
